@@ -277,6 +277,16 @@ theorem validate_messages_read_only :
     (expectedKinds.filter (fun p => p.2.1 == "MessageValidateParameterChanges")).all (fun p => !p.2.2) = true := by
   decide
 
+/-- **Notifications published inside an unprotected window cannot fail.**  `registry.registerNode`
+publishes `MessageRuntimeResumed` after `SetNode`/`ResumeRuntime` went to layer 0 (the flagged site
+`transactions.go:registerNode:err` above is justified by exactly this): every subscriber case of that
+kind has NO ordinary error return site (`errSites`, proved complete in `C10Sound`), in any application.
+A subscriber that starts validating (and so may reject) the resumed runtime breaks this theorem. -/
+theorem resumed_subscribers_infallible :
+    (Generated.HandlerFacts.msgKinds.filter (fun p => p.2.1 == "MessageRuntimeResumed")).map
+      (fun p => (p.1, errSites 60 p.2.2)) = [("roothash_ExecuteMessage", [])] := by
+  decide +kernel
+
 /-! ### the analysis itself on hand-made flows (sanity of `flagged`) -/
 
 -- write through an outer-bound wrapper inside an open overlay, then a failing return: flagged
